@@ -1860,8 +1860,7 @@ size_t LZ4F_decompress(LZ4F_dctx* dctx,
                 dctx->tmpInSize += sizeToCopy;
                 srcPtr += sizeToCopy;
                 if (dctx->tmpInSize < dctx->tmpInTarget) { /* need more input */
-                    nextSrcSizeHint = (dctx->tmpInTarget - dctx->tmpInSize)
-                                    + (dctx->frameInfo.blockChecksumFlag ? BFSize : 0)
+                    nextSrcSizeHint = (dctx->tmpInTarget - dctx->tmpInSize)  /* tmpInTarget includes the block checksum */
                                     + BHSize /* next header size */;
                     doAnotherStage = 0;
                     break;
